@@ -83,6 +83,9 @@ class Interp:
         self.visits = {}
         self.obligations = []                # filled by final pass
         self.call_args = []                  # (block, callee id, [arg (lo,hi,prov)]) for interprocedural join
+        self.call_cells = []                 # (block, callee id, {(param, suffix): (lo, hi)}) integer cells below reference arguments
+        self.post_cells = {}                 # (param, suffix) -> (lo, hi): integer cells below `&mut` parameters at every return
+        self.entry_cells = (param_iv or {}).get("#cells") or {}
         self.ret_cells = {}                  # path -> (lo, hi, prov) joined over return blocks
         self.hooks = hooks or {}
         self.field_inv = field_inv or {}     # (adt path, field) -> (lo, hi): invariant of crate-produced values
@@ -1023,15 +1026,32 @@ class Interp:
         s2 = st.copy()
         # which args hand out mutable access?
         mut_targets = []
-        for a in args:
+        for ai, a in enumerate(args):
             pl = op_place(a)
             if pl is None:
                 continue
             if pl["ty"].startswith("&mut "):
                 tgt = self.ref_target(s2, a)
-                mut_targets.append(tgt)
+                mut_targets.append((ai, tgt))
         if self.collect and path in self.fx.fns:
             self.call_args.append((b, path, [self.read_op(st, a, at)[1:] for a in args]))
+            # integer cells below each reference argument: the callee's entry state (joined over call sites by the driver)
+            cc = {}
+            for ai, a in enumerate(args):
+                pl = op_place(a)
+                if pl is None or not pl["ty"].startswith("&"):
+                    continue
+                tgt = self.ref_target(st, a)
+                if tgt is None:
+                    continue
+                n_ = len(tgt)
+                for k_, sid_ in st.cells.items():
+                    if len(k_) > n_ and k_[:n_] == tgt and not any(isinstance(x, str) and x.startswith("[_") for x in k_):
+                        lo_, hi_ = self.iv(st, sid_)
+                        rng_ = ty_range(self.syms[sid_].ty or "")
+                        if lo_ is not None and rng_ is not None and (lo_ > rng_[0] or hi_ < rng_[1]):
+                            cc[(ai + 1, k_[n_:])] = (lo_, hi_, self.syms[sid_].ty)
+            self.call_cells.append((b, path, cc))
         if self.collect:
             ob = self.panic_call_obligation(st, b, t, path, decl, args)
             if ob is not None:
@@ -1039,15 +1059,31 @@ class Interp:
         handled = self.call_transfer(s2, b, t, path, decl, dest, dty, args)
         # memory effects of the callee
         if mut_targets and handled not in ("pure", "range"):
-            for tgt in mut_targets:
+            cmods = (self.summaries.get("#mods") or {}).get(path) if path in self.fx.fns else None
+            cposts = (self.summaries.get("#posts") or {}).get(path) if path in self.fx.fns else None
+            for ai, tgt in mut_targets:
                 if tgt is not None:
-                    # precise kill of the pointee; cells elsewhere under &mut are unaffected only if disjoint roots
-                    n = len(tgt)
-                    for k in [k for k in s2.cells if k[:n] == tgt and k != dest]:
-                        if k[:len(dest)] != dest:
-                            del s2.cells[k]
-                    for f in [f for f in s2.facts if f[1][:n] == tgt]:
-                        s2.facts.discard(f)
+                    # precise kill of the pointee; cells elsewhere under &mut are unaffected only if disjoint roots.
+                    # With a may-write summary of the callee (modsets.py) only the prefixes it can modify are forgotten.
+                    prefixes = cmods.get(ai + 1) if cmods is not None and (ai + 1) in cmods else None
+                    roots = [tgt + q for q in prefixes] if prefixes is not None else [tgt]
+                    for root in roots:
+                        n = len(root)
+                        for k in list(s2.cells):
+                            below = k[:n] == root
+                            above = root[:len(k)] == k and len(k) >= len(tgt)       # an aggregate cell that contains the modified part
+                            if (below or above) and k != dest and k[:len(dest)] != dest:
+                                del s2.cells[k]
+                        for f in [f for f in s2.facts if f[1][:n] == root or (root[:len(f[1])] == f[1] and len(f[1]) >= len(tgt))]:
+                            s2.facts.discard(f)
+                    if cposts:
+                        for (pl_, suffix), (lo_, hi_, ty_) in cposts.items():
+                            if pl_ != ai + 1:
+                                continue
+                            key_ = tgt + suffix
+                            sid_ = self.new_sym(("post", at, key_), lo_, hi_, frozenset(["CALL:" + path]), None, ty_)
+                            s2.cells[key_] = sid_
+                            s2.iv[sid_] = (lo_, hi_)
                 else:
                     self.kill_mutable_memory(s2)
         if self.collect and self.hooks.get("call"):
@@ -1534,6 +1570,22 @@ class Interp:
             if lo is None:
                 continue
             seen[k[1:]] = (lo, hi, self.syms[sid].prov)
+        posts = {}
+        for k, sid in st.cells.items():
+            l = k[0]
+            if not (isinstance(l, int) and 1 <= l <= self.body.argc and len(k) > 2 and k[1] == "deref" and self.local_ty(l).startswith("&mut ")):
+                continue
+            if any(isinstance(x, str) and x.startswith("[_") for x in k):
+                continue
+            lo, hi = self.iv(st, sid)
+            rng = ty_range(self.syms[sid].ty or "")
+            if lo is None or rng is None or (lo <= rng[0] and hi >= rng[1]):
+                continue
+            posts[(l, k[2:])] = (lo, hi, self.syms[sid].ty)
+        if not getattr(self, "_ret_seen", False):
+            self.post_cells = posts
+        else:
+            self.post_cells = {k: (min(v[0], posts[k][0]), max(v[1], posts[k][1]), v[2]) for k, v in self.post_cells.items() if k in posts}
         if not getattr(self, "_ret_seen", False):
             self._ret_seen = True
             self.ret_cells = seen
@@ -1694,6 +1746,11 @@ class Interp:
                 sid = self.new_sym(("param", l), lo, hi, frozenset(["P%d" % l]), None, ty)
                 st.cells[(l,)] = sid
                 st.iv[sid] = (lo, hi)
+        for (l, suffix), (lo, hi, ty_) in self.entry_cells.items():
+            key = (l, "deref") + tuple(suffix)
+            sid = self.new_sym(("entrycell", key), lo, hi, frozenset(["P%d%s" % (l, "".join(x for x in suffix if x != "deref"))]), None, ty_)
+            st.cells[key] = sid
+            st.iv[sid] = (lo, hi)
         return st
 
     def run(self, collect=True):
@@ -1744,8 +1801,10 @@ class Interp:
         self.collect = True
         self.obligations = []
         self.call_args = []
+        self.call_cells = []
         self._ret_seen = False
         self.ret_cells = {}
+        self.post_cells = {}
         self.out_states = {}
         for b in self.body.rpo():
             st0 = self.in_states.get(b)
